@@ -115,11 +115,16 @@ func HandleInvite(ctx context.Context, input HandleInviteInput) (PDU, error) {
 		return nil, spec.Forbidden("The invite must be signed by the server it originated on")
 	}
 
-	signedEvent := input.InviteEvent.Sign(
+	// The event is signed once the remaining checks have passed: an invite
+	// that is refused (the user is already joined, say) is not countersigned,
+	// not even on the event object the caller handed in.
+	event, err := handleInviteCommonChecks(ctx, input, input.InviteEvent, *sender)
+	if err != nil {
+		return nil, err
+	}
+	return event.Sign(
 		string(input.InvitedUser.Domain()), input.KeyID, input.PrivateKey,
-	)
-
-	return handleInviteCommonChecks(ctx, input, signedEvent, *sender)
+	), nil
 }
 
 func HandleInviteV3(ctx context.Context, input HandleInviteV3Input) (PDU, error) {
